@@ -910,4 +910,43 @@ example : accept audSys (25/4) (2, 0) = true ∧ accept audSys (9/4) (2, 0) = fa
 
 end audit_examples
 
+/-- **nlistCall_sizes_irrelevant**: "the result is independent of the initial and incremental storage sizes", without any
+    condition on the system: for every cell, every position of the atoms (inside the cell or not), every cutoff, every way the
+    two sizes are given or left out (`deltasize ≥ 1` when given) and whatever `np.empty` leaves in fresh cells, the lists read
+    from the returned array are the lists `nlistL` built on growing lists, which do not mention the sizes. -/
+theorem nlistCall_sizes_irrelevant (junk : Nat → Nat → Nat) (a b : SizeArg) (hb : ∀ n, b = .given n → 1 ≤ n) (S : Sys)
+    (cutoff : ℚ) : absRows (nlistCall junk a b S cutoff).rows = nlistL S cutoff := by
+  have hd : 1 ≤ deltasizeOf b := by
+    cases b with
+    | given n => exact hb n rfl
+    | viaBuild => exact src_defaults_valid.2.2.2
+    | viaNlist => exact src_defaults_valid.2.1
+  have e : nlistCall junk a b S cutoff = nlistA junk (initialsizeOf a) (deltasizeOf b) S cutoff := by
+    unfold nlistCall nlistFull nlistA
+    rw [cands_table_eq]
+  rw [e]
+  exact storage_refines junk (initialsizeOf a) (deltasizeOf b) hd S cutoff
+
+/-- an atom outside the cell (relative coordinate 3/2 along the first vector), no periodic direction: the lists are no longer
+    the specification's business, but they still do not depend on the storage sizes. -/
+example : absRows (nlistCall (fun i k => 7 * i + k) (.given 1) (.given 1)
+      ⟨audSys.vects, audSys.origin, false, false, false, audSys.pos.set 1 ⟨267/40, -7/5, 1⟩⟩ (5/2)).rows =
+    absRows (nlistCall (fun _ _ => 0) .viaBuild .viaNlist
+      ⟨audSys.vects, audSys.origin, false, false, false, audSys.pos.set 1 ⟨267/40, -7/5, 1⟩⟩ (5/2)).rows := by
+  rw [nlistCall_sizes_irrelevant _ _ _ (by intro n h; cases h; decide), nlistCall_sizes_irrelevant _ _ _ (by intro n h; cases h)]
+
+/-- **nlistCall_structure**: the structural clauses for the object a call returns, in every call form and without any condition
+    on the system: one list per atom; every list strictly ascending (sorted, free of duplicates), entries are atom indices
+    other than the atom itself, and `j` in the list of `i` implies `i` in the list of `j`. -/
+theorem nlistCall_structure (junk : Nat → Nat → Nat) (a b : SizeArg) (hb : ∀ n, b = .given n → 1 ≤ n) (S : Sys) (cutoff : ℚ) :
+    (absRows (nlistCall junk a b S cutoff).rows).length = S.natoms ∧ ∀ i, i < S.natoms →
+      (rowOf (absRows (nlistCall junk a b S cutoff).rows) i).Pairwise (· < ·) ∧
+      (rowOf (absRows (nlistCall junk a b S cutoff).rows) i).Nodup ∧
+      ∀ j ∈ rowOf (absRows (nlistCall junk a b S cutoff).rows) i,
+        j < S.natoms ∧ j ≠ i ∧ i ∈ rowOf (absRows (nlistCall junk a b S cutoff).rows) j := by
+  rw [nlistCall_sizes_irrelevant junk a b hb S cutoff]
+  exact alg_inv S cutoff
+
+example := nlistCall_structure (fun i k => 7 * i + k) .viaNlist (.given 1) (by intro n h; cases h; decide) audSys (5/2)
+
 end Atomman.C03
